@@ -27,7 +27,11 @@ NUMERIC = [
 
 
 class GwR(Gw):
+    on_reset = None
+
     async def reset(self):
+        if self.on_reset is not None:
+            self.on_reset()  # the RST frame reboots the NCP
         return True
 
 
@@ -84,8 +88,10 @@ class RoundTrip(Harness):
             st = NcpState(V, nv3=nv3, mfg_burned=burned)
             if preset:
                 st.nv3_eui = [0x11, 0x00, 0xFF, 0xEE, 0xDD, 0xCC, 0xBB, 0xAA]  # == other (aa:bb:cc:dd:ee:ff:00:11), little endian
+                st.boot()
             ad = Adapter(loop, ez, st)
             gw.on_send = ad.on_send
+            gw.on_reset = st.boot
             app = appshim.make_app()
             app._ezsp = ez
             old_urandom = A.os.urandom
@@ -131,6 +137,8 @@ class RoundTrip(Harness):
                 else:
                     ctx.label("eui64-kept")
                 ctx.check(zt.EUI64(st.eui()) == exp_ieee, "NCP runs with EUI64 %s, expected %s (%s)" % (zt.EUI64(st.eui()), exp_ieee, what), "eui64")
+                ctx.check(st.stored_eui() == st.eui(), "the NCP's tokens name %s but it still runs as %s: it was not restarted after the address was written (%s)"
+                          % (zt.EUI64(st.stored_eui()), zt.EUI64(st.eui()), what), "eui64-not-active")
                 # ---- the security state the NCP received
                 ctx.check(len(st.sec_log) == 1, "security state sent %d times" % len(st.sec_log), "security-state-count")
                 sec = st.sec_log[0]
@@ -197,6 +205,7 @@ ROUNDTRIP = RoundTrip()
 def main(tier):
     c = Check("C14", tier)
     c.assumptions += [
+        "the NCP applies EUI64 tokens at boot (an RST through the gateway), keeps its outgoing frame counters across leave / reboot unless they are written or the tokens are factory-reset, and starts with non-zero stale counters",
         "NCP modelled by refs/ncpstate.py: persists EUI64 tokens, network parameters, initial security state, frame counters, link-key / child / address tables and configuration; requests decoded and responses encoded by field name against each version's schema tables",
         "application built by zigpy's constructor with refs/appshim.py; the gateway is a recorder whose reset() succeeds; os.urandom replaced by a fixed pattern (default hashed TCLK)",
         "a link key the NCP refuses (its partner address is on the model's refusal list) is not expected back; every accepted one is",
